@@ -15,7 +15,8 @@ RULE = ('Hypothesis-generated SimNet programs: worlds over {byte-stream, message
         'response futures resolved at once, late or by an operation; delivery pumped or manual with generated chunks; '
         'sender drain blocked for generated stretches; manual publishers may end by failing right after their last '
         'element (everything handed before the failure is owed to the consumer); no cancels or faults; heal phase '
-        'grants credit and runs to quiescence. Oracle (reference model = the program): for every interaction the sequence of payloads '
+        'grants credit and runs to quiescence. Plus wide programs: 17-48 requests with multi-fragment payloads all queued '
+        'before the sender runs, so that many partial frames are in flight at once. Oracle (reference model = the program): for every interaction the sequence of payloads '
         'observed at the peer callback equals the sequence handed in, byte for byte, exactly once, nothing foreign '
         '(every byte pattern encodes interaction, direction and index). Non-trivial = >= 2 interactions overlapping in '
         'time and (a payload of >= 2 fragments or a read buffer smaller than a frame); distinct = program hash.')
@@ -94,6 +95,29 @@ def programs(draw):
     return {'cfg': cfg, 'inter': inter, 'ops': ops}
 
 
+@st.composite
+def wide_programs(draw):
+    """Many interactions at once: 17-48 requests, each with a payload of several fragments, all queued before the sender
+    runs (the sender rotates through every partly sent frame, so the receiver holds that many partial frames at a time)."""
+    fs = draw(st.sampled_from([64, 64, 100]))
+    cfg = {'msg': draw(st.booleans()), 'frag': [fs, fs], 'rbuf': draw(st.sampled_from([[1024, 1024], [64, 64], [65536, 65536]]))}
+    n = draw(st.sampled_from([17, 20, 24, 33, 48]))
+    side = draw(st.sampled_from(['c', 's', 'mixed']))
+    inter = []
+    for i in range(n):
+        sd = side if side != 'mixed' else ('c' if i % 2 else 's')
+        k = draw(st.sampled_from(['rr', 'rr', 'fnf', 'st']))
+        spec = {'k': k, 'side': sd, 'req': [draw(st.sampled_from([150, 200, 300])), draw(st.sampled_from([0, 0, 30]))]}
+        if k == 'rr':
+            spec['resp'] = {'mode': 'now', 'p': [draw(st.sampled_from([3, 200])), 0]}
+        if k == 'st':
+            spec['src'] = {'kind': 'manual', 'els': [[180, 0], [5, 0]], 'end': 'sep'}
+            spec['sub'] = {'n0': gen.MAXN, 'refill': 0}
+        inter.append(spec)
+    ops = [['tick', 3]] + [['start']] * n + [['tick', 4]]
+    return {'cfg': cfg, 'inter': inter, 'ops': ops, 'wide': True}
+
+
 info = {}
 
 
@@ -139,6 +163,7 @@ def prop(program):
                        'framing=' + ('message' if program['cfg']['msg'] else 'bytes'),
                        'interactions=%d' % len(tr.scn.started), 'multi_fragment=%s' % multi,
                        'read_split_inside_frame=%s' % split, 'overlap=%s' % ov, 'quiescent=%s' % tr.quiet,
+                       'many_partial_frames_at_once=%s' % bool(program.get('wide')),
                        'models=' + '+'.join(kinds)]
     return vs
 
@@ -159,7 +184,7 @@ REGRESSION = [
 ]
 
 
-def shard(tier, seed, n):
+def shard(tier, seed, n, wide=False):
     common.use_repo()
     stats = common.Stats()
     known = common.Known(PID)
@@ -170,6 +195,9 @@ def shard(tier, seed, n):
             for v in common.judge(stats, known, p, vs):
                 stats.violations.append((v, p))
         return stats
+    if wide:
+        common.hyp_search(stats, known, wide_programs(), prop, n, seed, classify=classify, shrink=False)
+        return stats
     common.hyp_search(stats, known, programs(), prop, n, seed, classify=classify, shrink=True)
     return stats
 
@@ -179,6 +207,7 @@ def run(tier, seed):
     total = 1600 if tier == 'quick' else 60000
     nsh = common.NPROC
     jobs = [dict(tier=tier, seed=0, n=None)] + [dict(tier=tier, seed=s, n=total // nsh) for s in common.shard_seeds(seed, nsh)]
+    jobs += [dict(tier=tier, seed=s + 17, n=(32 if tier == 'quick' else 800) // 4, wide=True) for s in common.shard_seeds(seed, 4)]
     stats = common.run_shards(__name__, 'shard', jobs)
     return common.finish(PID, tier, seed, LEVEL, RULE, stats, t0, ASSUMPTIONS)
 
